@@ -176,6 +176,33 @@ fn check_ctx(st: &mut St, trace: u128, span: u64, sampled: bool) {
         Ok(None) => st.viol("round-trip", format!("decode(encode({:x},{:x},{})) = None via {:?}", trace, span, sampled, enc)),
         Err(_) => st.viol("decode-panic", format!("decode panicked on own encoding {:?}", enc)),
     }
+    // the deprecated encoder with an explicit flag: the same text as sampled(flag) + encode
+    #[allow(deprecated)]
+    for flag in [sampled, !sampled] {
+        match catch_unwind(AssertUnwindSafe(|| c.encode_w3c_traceparent_with_sampled(flag))) {
+            Ok(e) => {
+                let want = format!("00-{:032x}-{:016x}-{:02x}", trace, span, flag as u8);
+                if e != want {
+                    st.viol("encode-form", format!("encode_w3c_traceparent_with_sampled({}) of ({:x},{:x},{}) = {:?}, expected {:?}", flag, trace, span, sampled, e, want));
+                }
+            }
+            Err(_) => st.viol("encode-panic", format!("encode_w3c_traceparent_with_sampled panicked for ({:x},{:x},{})", trace, span, flag)),
+        }
+    }
+    // fresh contexts (random / default) are sampled and round-trip like any other
+    if st.evals % 64 == 0 {
+        for k in 0..2 {
+            match catch_unwind(AssertUnwindSafe(|| if k == 0 { SpanContext::random() } else { SpanContext::default() })) {
+                Ok(f) => {
+                    let back = SpanContext::decode_w3c_traceparent(&f.encode_w3c_traceparent());
+                    if !f.sampled || back.map(|b| (b.trace_id, b.span_id, b.sampled)) != Some((f.trace_id, f.span_id, true)) {
+                        st.viol("round-trip", format!("fresh context {:?} (sampled={}) does not round-trip: {:?}", (f.trace_id, f.span_id), f.sampled, back.map(|b| (b.trace_id, b.span_id, b.sampled))));
+                    }
+                }
+                Err(_) => st.viol("encode-panic", "SpanContext::random()/default() panicked".to_string()),
+            }
+        }
+    }
     // ids: Display / FromStr / serde
     let t = TraceId(trace);
     let s = SpanId(span);
